@@ -29,11 +29,11 @@ Lemma un_paren_lvl R u p :
   | PBinR _ => true
   | PBinL po _ g =>
       ((lvl po =? 8) && is_neg u) || (r_un_left R && (pre_max u <? lvl po))
-      || match g with Some go => (lvl go <? lvl po) && is_neg u | None => false end
+      || (g && (is_neg u || (r_plus R && is_pos u)))
   end.
 Proof.
   unfold un_paren. destruct p; [reflexivity | reflexivity | | reflexivity].
-  rewrite str_pow, str_neg, prec_ub_lt. destruct g; [rewrite prec_bb_lt|]; reflexivity.
+  rewrite str_pow, str_neg, str_pos, prec_ub_lt. reflexivity.
 Qed.
 
 (* relation between the minimum level a node is parsed at and its position *)
@@ -113,7 +113,7 @@ Proof.
     { intros m p Hw Hs Hp. cbn [wf] in Hw. apply andb_true_iff in Hw as [Hwl Hwr].
       cbn [shape_ok] in Hs. apply andb_true_iff in Hs as [Hs Hsh]. apply andb_true_iff in Hs as [Hsl Hsr].
       destruct IHl as [Hl _], IHr as [Hr _].
-      cbn [ok]. fold (gpos p).
+      cbn [ok].
       set (m' := if bin_paren R o p (Bin o l r) then 0 else m).
       (* C1 *)
       assert (C1 : m' <= lvl o).
@@ -125,11 +125,11 @@ Proof.
         - apply orb_false_iff in Epar as [E1 _]. apply Nat.ltb_ge in E1. lia.
         - apply Nat.leb_gt in Epar. rewrite Hp, rbp_spec. destruct (Nat.eqb_spec (lvl po) 8); lia. }
       (* C3 *)
-      assert (C3 : lvl o < theta R (PBinL o r (gpos p)) l /\ lvl o <= after R (PBinL o r (gpos p)) l).
+      assert (C3 : lvl o < theta R (PBinL o r (gleft R p o)) l /\ lvl o <= after R (PBinL o r (gleft R p o)) l).
       { pose proof (lvl_le8 o) as L8.
         destruct l as [| | | | |u x|ol l1 l2]; cbn [theta after]; try lia.
         - (* unary left operand *)
-          destruct (un_paren R u (PBinL o r (gpos p))) eqn:Epar; [lia|].
+          destruct (un_paren R u (PBinL o r (gleft R p o))) eqn:Epar; [lia|].
           rewrite un_paren_lvl in Epar. apply orb_false_iff in Epar as [Epar _].
           apply orb_false_iff in Epar as [Ep1 Ep2]. rewrite pow_neg_lvl in Hsh.
           rewrite Ep1, orb_false_r in Hsh. rewrite pre_rbp_spec.
@@ -138,7 +138,7 @@ Proof.
           + cbn [orb] in Hsh. rewrite Hsh in Ep2. cbn [andb] in Ep2.
             apply Nat.ltb_ge in Ep2. apply Nat.leb_gt in Ele. lia.
         - (* binary left operand *)
-          destruct (bin_paren R ol (PBinL o r (gpos p)) (Bin ol l1 l2)) eqn:Epar; [lia|].
+          destruct (bin_paren R ol (PBinL o r (gleft R p o)) (Bin ol l1 l2)) eqn:Epar; [lia|].
           rewrite bin_paren_lvl in Epar. apply orb_false_iff in Epar as [E1 E2].
           apply Nat.ltb_ge in E1. rewrite rbp_spec, mx_after_spec.
           apply negb_true_iff in Hsh. unfold rel_level in Hsh.
@@ -153,7 +153,7 @@ Proof.
               -- lia.
           + destruct (Nat.eqb_spec (lvl ol) 8); destruct (Nat.eqb_spec (lvl ol) 4); lia. }
       destruct C3 as [C3a C3b].
-      assert (Hokl : ok R m' (PBinL o r (gpos p)) l = true).
+      assert (Hokl : ok R m' (PBinL o r (gleft R p o)) l = true).
       { apply Hl; [exact Hwl | exact Hsl |]. cbn [posinv]. auto. }
       rewrite Hokl, (Hr (rbp o) (PBinR o) Hwr Hsr eq_refl).
       apply Nat.leb_le in C1, C3b. apply Nat.ltb_lt in C3a. rewrite C1, C3a, C3b. reflexivity. }
@@ -163,9 +163,11 @@ Qed.
 Theorem wf_shape_safe R e : wf e = true -> shape_ok R e = true -> safe R e = true.
 Proof. intros Hw Hs. destruct (shape_ok_ok R e) as [H _]. apply H; [exact Hw | exact Hs | reflexivity]. Qed.
 
-(* with the repaired decisions no shape is excluded *)
-Lemma shape_ok_fixed : forall e, shape_ok rules_fixed e = true.
+(* with the three left-operand decisions repaired no shape is excluded *)
+Definition complete (R : rules) : bool := r_pow_left R && r_rel_left R && r_un_left R.
+Lemma shape_ok_complete R : complete R = true -> forall e, shape_ok R e = true.
 Proof.
+  intros HR. unfold complete in HR. apply andb_true_iff in HR as [HR Hu]. apply andb_true_iff in HR as [Hp Hr].
   induction e as [l|n ix sub Hix Hsub|fn args Hargs|n e IHe|lo hi st IHlo IHhi IHst|u e IHe|o l r IHl IHr]
     using expr_ind2; cbn [shape_ok].
   - reflexivity.
@@ -177,15 +179,18 @@ Proof.
   - rewrite IHlo, IHhi, IHst. reflexivity.
   - exact IHe.
   - rewrite IHl, IHr. cbn [andb]. destruct l; try reflexivity.
-    + cbn [rules_fixed r_un_left]. rewrite orb_true_r. reflexivity.
-    + cbn [rules_fixed r_pow_left r_rel_left negb]. rewrite !andb_false_r. reflexivity.
+    + rewrite Hu, orb_true_r. reflexivity.
+    + rewrite Hp, Hr. cbn [negb]. rewrite !andb_false_r. reflexivity.
 Qed.
 
 Theorem parse_write_shape R e : wf e = true -> shape_ok R e = true -> parse (write R e) = Some e.
 Proof. intros Hw Hs. apply parse_write_safe, wf_shape_safe; assumption. Qed.
 
+Theorem parse_write_complete R e : complete R = true -> wf e = true -> parse (write R e) = Some e.
+Proof. intros HR Hw. apply parse_write_shape; [exact Hw | apply shape_ok_complete, HR]. Qed.
+
 Theorem parse_write_fixed e : wf e = true -> parse (write rules_fixed e) = Some e.
-Proof. intros Hw. apply parse_write_shape; [exact Hw | apply shape_ok_fixed]. Qed.
+Proof. apply parse_write_complete. reflexivity. Qed.
 
 (* ------------------------------------------------------------------ witnesses *)
 Open Scope string_scope.
